@@ -256,7 +256,7 @@ func (g *gen) sCall(fc *fctx) []Stmt {
 	switch {
 	case len(f.sig.rets) == 0 || (!hasFn && g.ch(4) == 0):
 		return []Stmt{&Call{Fn: Var{f.name}, Args: args}}
-	case !hasFn && g.ch(3) == 0 && len(f.sig.rets) == 1:
+	case !hasFn && g.ch(3) == 0 && len(f.sig.rets) == 1 && f.sig.rets[0].k == kNum:
 		if v := g.assignable(f.sig.rets[0].k); v != nil {
 			return []Stmt{&Call{Targets: []Expr{Var{v.name}}, Fn: Var{f.name}, Args: args}}
 		}
@@ -837,7 +837,6 @@ func (g *gen) epilogue(fc *fctx) []Stmt {
 	}
 	return out
 }
-
 
 // GenerateBodies draws a program that defines n global coroutine body
 // functions B1..Bn (and whatever shared state they capture); a host-side
